@@ -11,7 +11,7 @@ from vlib import log
 
 def fmt_op(o):
     k = o["k"]
-    if k in ("spawn", "spawn_named", "sspawn", "join", "unpark", "panic"):
+    if k in ("spawn", "spawn_named", "sspawn", "spawn_future", "join", "unpark", "panic", "abort", "detach", "await_join", "try_join", "is_finished"):
         return f"{k}({o['v']})"
     if k in ("lock", "try_lock", "read", "write", "try_read", "try_write"):
         return f"{k}(o{o['o']},g{o['w']})"
@@ -19,7 +19,9 @@ def fmt_op(o):
         return f"{k}(g{o['w']})"
     if k == "cv_wait":
         return f"cv_wait(cv{o['o']},m{o['v']},g{o['w']})"
-    if k in ("yield", "spin", "sleep", "park", "nop", "rand", "reset_steps", "scope_begin", "scope_end", "tid", "name", "me"):
+    if k in ("set_flag", "await_flag", "wake_only"):
+        return f"{k}(f{o['o']})"
+    if k in ("yield", "spin", "sleep", "park", "nop", "rand", "reset_steps", "scope_begin", "scope_end", "tid", "name", "me", "ayield", "bo_begin", "bo_end"):
         return k
     return f"{k}(o{o['o']},v{o['v']},w{o['w']})"
 
@@ -34,8 +36,10 @@ def fmt_prog(p):
 
 
 def fmt_ev(e):
-    if e["e"] == "dec":
+    if e["e"] == "dec" and not e.get("det"):
         return f"dec run={e['run']} sp={e['sp']} cur={e['cur']} y={int(e['y'])} -> {e['ch']}"
+    if e["e"] == "dec" and e.get("det"):
+        return f"dec run={e['run']} sp={e['sp']} det={e['det']} cur={e['cur']} y={int(e['y'])} -> {e['ch']}"
     if e["e"] == "dt":
         return f"   dtor t{e['t']} key{e['key']} val={e['val']} touch={e['touch']} -> {e['tr']}"
     if e["e"] == "op":
@@ -251,6 +255,10 @@ def S(fam, q, t):
 
 
 SHUTTLE_PROPS = {
+    "C17": {"stages": [F("async", 30, 300), F("async_noabort", 24, 250), F("async_sem", 24, 250),
+                       {"fam": "async", "quick": 10, "thorough": 100, "mc": False, "sample": (40, 300), "pb": None}],
+            "assume": ["one awaiter per hand-written waker slot; aborted futures contain no blocking std calls",
+                       "block_on sections of threads use the same poll loop as spawned futures"]},
     "C07": {"stages": [F("ident", 24, 200, mc=False), F("tls", 30, 300, mc=False), F("scope", 24, 200, mc=False),
                        F("kernel", 14, 150)],
             "assume": ["thread-local destructor behaviour (reads another key / yields while dropping) is configured per program",
@@ -276,13 +284,14 @@ SHUTTLE_PROPS = {
     "C02": {"stages": [F("kernel", 14, 150), F("mutex", 14, 120), F("rwlock", 16, 150), F("atomic", 20, 200),
                        F("condvar", 18, 200), F("park", 20, 150), F("barrier", 20, 150), F("barrier_reuse", 12, 100),
                        F("once", 16, 150), F("mpsc", 30, 300), F("mpsc_drop", 30, 300), F("sem_unfair", 20, 200),
-                       F("sem_fair", 20, 200), F("corpus_deadlock", 0, 0), F("corpus_locks", 0, 0),
+                       F("sem_fair", 20, 200), F("async", 30, 300), F("async_noabort", 24, 250), F("async_sem", 24, 250),
+                       F("corpus_deadlock", 0, 0), F("corpus_locks", 0, 0),
                        F("corpus_sync", 0, 0), F("corpus_mpsc", 0, 0)],
             "kinds": {"outcome-missing-in-impl", "harness-crash", "tlc-error"},
             "assume": ["outcome = per-thread results + termination kind + unfinished set; spurious park wake-ups are not part of outcome sets",
                        "programs whose runtime tree exceeds the execution cap are compared in the impl-in-spec direction only"]},
     "C03": {"stages": [F("mutex", 14, 120), F("condvar", 14, 120), F("park", 20, 150), F("mpsc", 14, 120),
-                       F("corpus_deadlock", 0, 0)],
+                       F("async", 30, 300), F("async_noabort", 24, 250), F("corpus_deadlock", 0, 0)],
             "assume": ["termination oracle = derived Status (DESIGN 4.1); tasks<=3, ops<=3 (quick)"]},
     "C04": {"stages": [F("mutex", 20, 200), F("rwlock", 16, 150), F("atomic", 20, 200), F("corpus_locks", 0, 0)],
             "assume": ["8-bit atomics in the specification; all orderings treated as SeqCst (Shuttle's documented model)"]},
@@ -296,8 +305,8 @@ SHUTTLE_PROPS = {
     "C08": {"stages": [F("kernel", 14, 150), F("mutex", 14, 120), F("park", 20, 150)],
             "assume": ["observed through a recording Scheduler wrapper placed inside the runtime's MetricsScheduler"]},
     "C18": {"stages": [F("sem_unfair", 20, 200), F("sem_fair", 20, 200), F("sem_unfair_obs", 16, 150, mc=False),
-                       F("sem_fair_obs", 16, 150, mc=False)],
-            "assume": ["blocking acquires only (async/cancel family: see C17/C18 growth)"]},
+                       F("sem_fair_obs", 16, 150, mc=False), F("async_sem", 24, 250)],
+            "assume": ["blocking acquires from threads, awaited acquires from futures; cancellation = abort of a future pending in acquire"]},
 }
 
 # which problem kinds count for which property
